@@ -8,8 +8,15 @@
 (* access through an empty handle, a rejected relate/unrelate) yield "ood".       *)
 EXTENDS Integers, Sequences, FiniteSets, TLC
 
-CONSTANTS Classes, Attrs, Assocs, MaxI, Fuel,
-          Funcs       \* [name |-> [params |-> sequence of names, body |-> statements]]: callable functions (C15)
+CONSTANTS Classes, Attrs, Assocs, MaxI, Fuel
+
+(* The callable elements of the model (C15) travel in the state as S.env:          *)
+(*   funcs   [name |-> [params, body]]            functions                        *)
+(*   ops     [key letters |-> [name |-> [inst, params, body]]]  class / instance operations *)
+(*   bridges [key letters |-> [name |-> [params, body]]]         bridges of external entities *)
+(*   derived [key letters |-> [attribute |-> body]]              derived attributes *)
+(*   enums   [name |-> sequence of enumerators]   consts [name |-> value]           *)
+NoEnv == [funcs |-> <<>>, ops |-> <<>>, bridges |-> <<>>, derived |-> <<>>, enums |-> <<>>, consts |-> <<>>]
 
 -----------------------------------------------------------------------------
 Rng(q) == {q[i] : i \in DOMAIN q}
@@ -149,7 +156,7 @@ ChkInt(n) == IF n > Bound \/ n < 0 - Bound THEN OOD ELSE VInt(n)
 IsOOD(v) == v.k = "ood"
 StripTicks(ph) == IF ph = "" THEN "" ELSE Unquote(ph)
 
-RECURSIVE EvalE(_, _), ExecS(_, _), ExecB(_, _), While(_, _), ForEach(_, _, _, _), Elifs(_, _, _), Call(_, _, _, _), Args(_, _, _)
+RECURSIVE EvalE(_, _), ExecS(_, _), ExecB(_, _), While(_, _), ForEach(_, _, _, _), Elifs(_, _, _), Call(_, _, _, _), Args(_, _, _), Derived(_, _, _, _)
 
 \* evaluation of an expression also threads the model (an invoked function may change it): [v, s]
 EV(v, S) == [v |-> v, s |-> S]
@@ -179,19 +186,36 @@ EvalE(e, S) ==
       [] e.t = "bool" -> EV(VBool(e.v = "true"), S)
       [] e.t = "str" -> EV(VStr(Unquote(e.v)), S)
       [] e.t = "paren" -> EvalE(e.e, S)
-      [] e.t = "var" -> EV(IF e.n \in DOMAIN S.vars THEN S.vars[e.n] ELSE OOD, S)
+      [] e.t = "var" -> EV(IF e.n \in DOMAIN S.vars THEN S.vars[e.n]
+                           ELSE IF e.n \in DOMAIN S.env.consts THEN S.env.consts[e.n] ELSE OOD, S)
+      [] e.t = "enum" -> EV(IF e.ns \in DOMAIN S.env.enums /\ \E i \in DOMAIN S.env.enums[e.ns] : S.env.enums[e.ns][i] = e.n
+                            THEN VInt((CHOOSE i \in DOMAIN S.env.enums[e.ns] : S.env.enums[e.ns][i] = e.n) - 1) ELSE OOD, S)
       [] e.t = "selected" -> EV(IF "selected" \in DOMAIN S.vars THEN S.vars["selected"] ELSE OOD, S)
       [] e.t = "self" -> EV(S.self, S)
       [] e.t = "param" -> EV(IF e.n \in DOMAIN S.kw THEN S.kw[e.n] ELSE OOD, S)
       [] e.t = "field" ->
             LET h == EvalE(e.h, S) IN
-            IF h.v.k = "inst" /\ Live(h.s.m, h.v.c, h.v.i) /\ InSeq(e.n, AttrNames(h.v.c))
+            IF h.v.k = "inst" /\ Live(h.s.m, h.v.c, h.v.i) /\ h.v.c \in DOMAIN S.env.derived /\ e.n \in DOMAIN S.env.derived[h.v.c]
+            THEN Derived(S.env.derived[h.v.c][e.n], e.n, h.s, h.v)
+            ELSE IF h.v.k = "inst" /\ Live(h.s.m, h.v.c, h.v.i) /\ InSeq(e.n, AttrNames(h.v.c))
             THEN EV(MRead(h.s.m, h.v.c, h.v.i, e.n), h.s) ELSE EV(OOD, h.s)
       [] e.t = "un" -> LET x == EvalE(e.e, S) IN EV(IF IsOOD(x.v) THEN OOD ELSE UnVal(x.s.m, e.op, x.v), x.s)
       [] e.t = "bin" -> LET l == EvalE(e.l, S)
                             r == EvalE(e.r, l.s)         \* both operands are always evaluated, left first
                         IN EV(IF IsOOD(l.v) \/ IsOOD(r.v) THEN OOD ELSE BinVal(e.op, l.v, r.v), r.s)
-      [] e.t = "fcall" -> IF e.n \in DOMAIN Funcs THEN Call(Funcs[e.n], e.ps, S, NoVal) ELSE EV(OOD, S)
+      [] e.t = "fcall" -> IF e.n \in DOMAIN S.env.funcs THEN Call(S.env.funcs[e.n], e.ps, S, NoVal) ELSE EV(OOD, S)
+      [] e.t = "icall" ->
+            \* KL::op(..) is a class operation, EE::bridge(..) a bridge
+            IF e.ns \in DOMAIN S.env.ops /\ e.n \in DOMAIN S.env.ops[e.ns] /\ ~S.env.ops[e.ns][e.n].inst
+            THEN Call(S.env.ops[e.ns][e.n], e.ps, S, NoVal)
+            ELSE IF e.ns \in DOMAIN S.env.bridges /\ e.n \in DOMAIN S.env.bridges[e.ns]
+            THEN Call(S.env.bridges[e.ns][e.n], e.ps, S, NoVal)
+            ELSE EV(OOD, S)
+      [] e.t = "ocall" ->
+            LET h == EvalE(e.h, S) IN
+            IF h.v.k = "inst" /\ Live(h.s.m, h.v.c, h.v.i) /\ h.v.c \in DOMAIN S.env.ops /\ e.n \in DOMAIN S.env.ops[h.v.c]
+               /\ S.env.ops[h.v.c][e.n].inst
+            THEN Call(S.env.ops[h.v.c][e.n], e.ps, h.s, h.v) ELSE EV(OOD, h.s)
       [] OTHER -> EV(OOD, S)
 
 \* evaluate named arguments left to right: [kw, s] (kw = <<>> marks ood)
@@ -206,11 +230,22 @@ Args(ps, S, acc) ==
 Call(f, ps, S, self) ==
     LET A == Args(ps, S, <<>>)
     IN IF ~A.ok \/ DOMAIN A.kw # Rng(f.params) \/ A.s.fuel = 0 THEN EV(OOD, A.s)
-       ELSE LET inner == [vars |-> <<>>, m |-> A.s.m, ret |-> NoVal, ctl |-> "run", fuel |-> A.s.fuel - 1, kw |-> A.kw, self |-> self]
+       ELSE LET inner == [vars |-> <<>>, m |-> A.s.m, ret |-> NoVal, ctl |-> "run", fuel |-> A.s.fuel - 1, kw |-> A.kw, self |-> self,
+                          env |-> S.env, dattr |-> ""]
                 R == ExecB(f.body, inner)
             IN IF R.ctl = "ood" THEN EV(OOD, [A.s EXCEPT !.m = R.m, !.fuel = R.fuel])
                ELSE IF R.ctl = "stop" THEN EV(R.ret, [A.s EXCEPT !.m = R.m, !.fuel = R.fuel])
                ELSE EV(R.ret, [A.s EXCEPT !.m = R.m, !.fuel = R.fuel])
+
+\* reading a derived attribute runs its body with self bound to the instance; the value is
+\* whatever the body assigns to self.<attribute> (recomputed on every read)
+Derived(body, n, S, inst) ==
+    IF S.fuel = 0 THEN EV(OOD, S)
+    ELSE LET inner == [vars |-> <<>>, m |-> S.m, ret |-> NoVal, ctl |-> "run", fuel |-> S.fuel - 1, kw |-> <<>>, self |-> inst,
+                       env |-> S.env, dattr |-> n]
+             R == ExecB(body, inner)
+         IN IF R.ctl = "ood" THEN EV(OOD, [S EXCEPT !.m = R.m, !.fuel = R.fuel])
+            ELSE EV(R.ret, [S EXCEPT !.m = R.m, !.fuel = R.fuel])
 
 SetVar(S, n, v) == [S EXCEPT !.vars = [x \in (DOMAIN S.vars) \cup {n} |-> IF x = n THEN v ELSE S.vars[x]]]
 Fail(S) == [S EXCEPT !.ctl = "ood"]
@@ -262,6 +297,7 @@ ExecS(s, S) ==
             LET x == EvalE(s.e, S) IN
             IF IsOOD(x.v) \/ x.v.k = "none" THEN Fail(x.s)
             ELSE IF s.lhs.t = "var" THEN SetVar(x.s, s.lhs.n, x.v)
+            ELSE IF s.lhs.t = "field" /\ S.dattr # "" /\ s.lhs.n = S.dattr /\ s.lhs.h.t = "self" THEN [x.s EXCEPT !.ret = x.v]
             ELSE IF s.lhs.t = "field" THEN
                 LET h == EvalE(s.lhs.h, x.s) IN
                 IF h.v.k = "inst" /\ Live(h.s.m, h.v.c, h.v.i) /\ InSeq(s.lhs.n, NonRef(h.v.c))
@@ -319,7 +355,10 @@ ExecB(b, S) == IF b = <<>> \/ S.ctl # "run" THEN S
                ELSE ExecB(Tail(b), ExecS(b[1], [S EXCEPT !.fuel = @ - 1]))
 
 Run(body, kw, self) ==
-    ExecB(body, [vars |-> <<>>, m |-> EmptyModel, ret |-> NoVal, ctl |-> "run", fuel |-> Fuel, kw |-> kw, self |-> self])
+    ExecB(body, [vars |-> <<>>, m |-> EmptyModel, ret |-> NoVal, ctl |-> "run", fuel |-> Fuel, kw |-> kw, self |-> self,
+                 env |-> NoEnv, dattr |-> ""])
+RunIn(body, kw, self, env, M) ==
+    ExecB(body, [vars |-> <<>>, m |-> M, ret |-> NoVal, ctl |-> "run", fuel |-> Fuel, kw |-> kw, self |-> self, env |-> env, dattr |-> ""])
 
 -----------------------------------------------------------------------------
 (* projection of a model in the vocabulary of the recorded traces *)
